@@ -64,6 +64,11 @@ func hexVal(c byte) int {
 
 // jsString scans a string literal body starting after the opening quote q; it returns the
 // decoded value, the index after the closing quote, and ok=false for an unterminated literal.
+// jsLenientEscapes: a malformed `\x` / `\u` escape is the character itself instead of ending the
+// literal as invalid. Set only while validating Spec/Slots' string scanner, which models where
+// the literal ends, not which escapes are well-formed; the oracle proper is strict.
+var jsLenientEscapes = false
+
 func jsString(s string, i int, q byte) (val string, end int, ok bool) {
 	var b []byte
 	for i < len(s) {
@@ -106,6 +111,8 @@ func jsString(s string, i int, q byte) (val string, end int, ok bool) {
 				if i+1 < len(s) && isHexByte(s[i]) && isHexByte(s[i+1]) {
 					b = append(b, string(rune(hexVal(s[i])*16+hexVal(s[i+1])))...)
 					i += 2
+				} else if jsLenientEscapes {
+					b = append(b, e)
 				} else {
 					return string(b), i, false
 				}
@@ -114,6 +121,8 @@ func jsString(s string, i int, q byte) (val string, end int, ok bool) {
 					r := hexVal(s[i])<<12 | hexVal(s[i+1])<<8 | hexVal(s[i+2])<<4 | hexVal(s[i+3])
 					b = append(b, string(rune(r))...)
 					i += 4
+				} else if jsLenientEscapes {
+					b = append(b, e)
 				} else {
 					return string(b), i, false
 				}
@@ -636,6 +645,21 @@ func htmlTokens(doc string) []tok {
 		text.Reset()
 	}
 	sub := "" // "js", "json", "css", "data" while inside script/style
+	var subText bytes.Buffer
+	flushSub := func() {
+		raw := subText.String()
+		subText.Reset()
+		switch sub {
+		case "js":
+			out = append(out, jsTokens(raw)...)
+		case "json":
+			out = append(out, jsonTokens(raw)...)
+		case "css":
+			out = append(out, cssTokens(raw)...)
+		default:
+			out = append(out, tok{sig: "html:rawtext", slot: true, val: raw})
+		}
+	}
 	for {
 		tt := z.Next()
 		if tt == html.ErrorToken {
@@ -644,34 +668,22 @@ func htmlTokens(doc string) []tok {
 		switch tt {
 		case html.TextToken:
 			if sub != "" {
-				raw := string(z.Raw())
-				switch sub {
-				case "js":
-					out = append(out, jsTokens(raw)...)
-				case "json":
-					out = append(out, jsonTokens(raw)...)
-				case "css":
-					out = append(out, cssTokens(raw)...)
-				default:
-					out = append(out, tok{sig: "html:rawtext", slot: true, val: raw})
-				}
+				subText.Write(z.Raw())
 				continue
 			}
 			text.Write(z.Text()) // entity-decoded, except inside raw-text elements
 		case html.StartTagToken, html.SelfClosingTagToken:
 			flush()
 			t := z.Token()
-			sig := "html:<" + t.Data
-			if tt == html.SelfClosingTagToken {
-				sig = "html:</>" + t.Data
-			}
-			out = append(out, tok{sig: sig})
+			// start and self-closing tags are one kind: x/net/html takes `<a b=/>` (an unquoted value ending
+			// in `/`) for a self-closing tag, WHATWG §13.2.5.37 does not
+			out = append(out, tok{sig: "html:<" + t.Data})
 			for _, a := range t.Attr {
 				out = append(out, tok{sig: "html:attr-name", slot: true, val: a.Key})
 				out = append(out, tok{sig: "html:attr-value", slot: true, val: a.Val})
 			}
 			textKind = "html:text"
-			if tt == html.StartTagToken {
+			{ // start and self-closing alike (see above)
 				switch t.Data {
 				case "script":
 					sub = scriptKind(t.Attr)
@@ -690,6 +702,7 @@ func htmlTokens(doc string) []tok {
 		case html.EndTagToken:
 			t := z.Token()
 			if sub != "" && (t.Data == "script" || t.Data == "style") {
+				flushSub()
 				sub = ""
 			} else {
 				flush()
@@ -704,9 +717,11 @@ func htmlTokens(doc string) []tok {
 			out = append(out, tok{sig: "html:doctype"})
 		}
 	}
-	flush()
 	if sub != "" {
+		flushSub()
 		out = append(out, tok{sig: "html:UNCLOSED-" + sub})
+	} else {
+		flush()
 	}
 	return out
 }
